@@ -193,6 +193,13 @@ func smtextDrive(args []string) error {
 		return err
 	}
 	labelPool := []byte("ACDEFGHIKLMNPQRSTVWYBZX*acgt0123456789!\"$%&'()+,-./:;<=>?@[\\]^_`{|}~#")
+	// arbitrary single-byte alphabets: control bytes and bytes >= 0x80 too. Left out: the bytes that some notion of
+	// "whitespace" covers (TAB LF VT FF CR space, 0x85, 0xA0: a tokenizer may legitimately treat them as blanks) and 255 (Gap).
+	for b := 1; b < 255; b++ {
+		if (b < 32 && (b < 9 || b > 13)) || b == 127 || (b >= 128 && b != 0x85 && b != 0xA0) {
+			labelPool = append(labelPool, byte(b))
+		}
+	}
 	for sid := 0; sid < sessions; sid++ {
 		if only >= 0 && sid != only {
 			continue
